@@ -43,6 +43,11 @@ pub fn ignore_filter(entry: &DirEntry, ignore: &Option<Gitignore>) -> bool {
     match ignore {
         None => true,
         Some(gi) => {
+            // The patterns are about what is inside the source
+            // directory; the source itself is never filtered.
+            if entry.depth() == 0 {
+                return true;
+            }
             let path = entry.path();
             // The kind of the entry itself: to git a symbolic link
             // to a directory is not a directory.
